@@ -92,6 +92,13 @@ def gen_l1_inputs(run, pkgs, n_malformed):
     for d in docs[:300]:
         hdocs.append(d)
         kvs.append(d)
+    for _ in range(40):
+        # repeated keys inside one directive: the last entry wins
+        ks = [rng.choice(["a", "b", "X-Api", "id"]) for _ in range(rng.randint(2, 4))]
+        body = rng.choice([",", ", ", ""]).join("{%s:%s}" % (k, rng.choice(["x", "y", "z1", "w w"])) for k in ks)
+        docs.append("shoot: Get(/p)\nshoot: alias=" + body + "\n")
+        hdocs.append("shoot: headers=" + body + "\n")
+        kvs.append(body)
     tags += ['`shoot:"alias=a_b" json:"x"`', '`json:"x,omitempty" shoot:"alias=Z9"`', "`shoot:\"alias=\"`", "``", "`shoot:\"x\"`",
              '`shoot:"alias=a-b"`', '`a:"b" shoot:"alias=q"`', '`shoot: "alias=q"`', '` shoot:"alias=sp"`']
     return docs, hdocs, tags, kvs
@@ -120,6 +127,33 @@ def coq_shards(run, tag, rendered, fn, ctype, shard=300, pre=""):
     return res
 
 
+DEAD = {"dead": True}
+
+
+def probe_calls_robust(probe, calls):
+    """like lib.probe_calls, but a call on which the probe process dies (logx.Fatalf = os.Exit(1) inside the
+    probed function) yields DEAD instead of breaking the check: the failing call is isolated by bisection"""
+    if probe is None:
+        return None
+
+    def run_chunk(chunk):
+        inp = "".join(fn + "".join("\t" + lib.go_quote(a) for a in args) + "\n" for fn, args in chunk)
+        rc, out, err = lib.sh([str(probe)], input=inp, timeout=600)
+        if rc == 0:
+            res = [json.loads(l) for l in out.splitlines()]
+            if len(res) == len(chunk):
+                return res
+            raise lib.CheckBroken("verifprobe: %d results for %d calls" % (len(res), len(chunk)))
+        if len(chunk) == 1:
+            return [dict(DEAD, stderr=err[-300:])]
+        h = len(chunk) // 2
+        return run_chunk(chunk[:h]) + run_chunk(chunk[h:])
+    res = []
+    for k in range(0, len(calls), 400):
+        res.extend(run_chunk(calls[k:k + 400]))
+    return res
+
+
 def check_l1(run, probe, pkgs):
     """returns (calls compared, mismatching calls) ; (0, []) with run.l1_skipped set when the probe is unavailable"""
     docs, hdocs, tags, kvs = gen_l1_inputs(run, pkgs, 4000 if run.thorough() else 900)
@@ -135,13 +169,16 @@ def check_l1(run, probe, pkgs):
     for t in tags:
         if "\\" not in t:               # strconv.Unquote escapes are outside the modelled tag alphabet
             calls.append(("parseFieldAlias", [t]))
-    res = lib.probe_calls(probe, calls)
+    res = probe_calls_robust(probe, calls)
     if res is None:
         return 0, []
     terms = []
     for (fn, args), r in zip(calls, res):
         a = rg.coq_str(args[0])
-        if isinstance(r[0], dict) and ("panic" in r[0] or "error" in r[0]) and fn != "parseKV" and fn not in ("parseAlias", "parseHeaders"):
+        if isinstance(r, dict) and r.get("dead"):
+            # the real function called logx.Fatalf where the filter (and, if the model agrees, the model) saw no reason to
+            terms.append("DPath %s (PathFatal %s)" % (a, rg.coq_str("<<process exit in the implementation>>")))
+        elif isinstance(r[0], dict) and ("panic" in r[0] or "error" in r[0]) and fn != "parseKV" and fn not in ("parseAlias", "parseHeaders"):
             terms.append("DFieldAlias %s %s" % (a, rg.coq_str("<<probe error>>")))
         elif fn == "parsePath":
             terms.append("DPath %s (%s)" % (a, coq_path_result(r)))
@@ -193,7 +230,7 @@ def check_std(run, restprobe):
 # ------------------------------------------------------------------------ L2
 def gen_packages(run):
     rng = run.rng
-    n = 60 if run.thorough() else 14
+    n = 150 if run.thorough() else 18
     pkgs = []
     for i in range(n):
         # the first five packages start their interfaces with one method per verb, so that every run covers all verbs
@@ -230,6 +267,23 @@ def build_cases(run, pkgs):
                     cid = len(cases)
                     args = rg.gen_args(rng, m, pkg, cid)
                     cases.append({"id": cid, "client": v, "base": b, "pkg": pkg, "iface": ifc, "method": m, "args": args})
+                # inputs on which an open finding applies: compared with the faithful model only (and only while the
+                # finding reproduces on its witness)
+                holes = {t[1] for t in m["toks"] if t[0] == "hole"}
+                hole_params = {rg.resolve(m, h) for h in holes}
+                if m["verb"] not in rg.BODY_VERBS and any(p["kind"] == "struct" and p["ptr"] for p in m["params"]):
+                    v, b = rng.choice(cvars)
+                    cid = len(cases)
+                    args = rg.gen_args(rng, m, pkg, cid, allow_nil_struct_on_query=True, force_nil_struct=True)
+                    cases.append({"id": cid, "client": v, "base": b, "pkg": pkg, "iface": ifc, "method": m, "args": args,
+                                  "model_only": "K_rest_nil_struct_ptr"})
+                if any(p["kind"] == "scalar" and p["name"] in hole_params and p["gotype"] in ("string", "Status") for p in m["params"]):
+                    v, b = rng.choice(cvars)
+                    cid = len(cases)
+                    args = rg.gen_args(rng, m, pkg, cid, brace_path=True)
+                    if any(a[0] == "str" and "{" in a[1] for k, a in args.items() if k in hole_params):
+                        cases.append({"id": cid, "client": v, "base": b, "pkg": pkg, "iface": ifc, "method": m, "args": args,
+                                      "model_only": "K_rest_subst_rescan"})
     return clients, cases
 
 
@@ -362,10 +416,10 @@ def feature_counters(cases, obs):
 
 def nontrivial(c):
     """a case exercises at least one non-default feature of the property: a placeholder, an alias, a query
-    source (scalar, pointer, struct, map), a body, interface headers, or a context"""
+    source (scalar, pointer, struct, map), a body, or interface headers (a context alone does not count)"""
     m = c["method"]
     return bool([t for t in m["toks"] if t[0] == "hole"] or m["alias"] or c["iface"]["hdr_line"] or
-                [p for p in m["params"] if p["kind"] in ("scalar", "struct", "map", "ctx")])
+                [p for p in m["params"] if p["kind"] in ("scalar", "struct", "map")])
 
 
 def canon_case_key(c):
@@ -408,14 +462,15 @@ def main(run):
         n_l1, l1_mism = f_l1.result()
     run.log("shoot done; L0 %d calls (%d mismatches), L1 %d calls (%d mismatches)" % (n_std, len(std_mism), n_l1, len(l1_mism)))
 
-    for x in std_mism[:3]:
-        run.violation({"kind": "correspondence-broken", "correspondence": "L0:C06:restprobe vs Corr/RestCorr.v (join_decoded/canon/dec)",
-                       "call": x["call"], "go": x["go"]}, no_input=True)
-    for x in l1_mism[:3]:
-        run.violation({"kind": "correspondence-broken", "correspondence": "L1:C06:verifprobe vs Model/Directive.v",
-                       "call": x["call"], "go": x["go"],
-                       "how": "printf '%s\\t%s\\n' | verifprobe   (go build -tags verif ./cmd/verifprobe)" % (x["call"][0], lib.go_quote(x["call"][1][0]))},
-                      no_input=True)
+    def report_l01():
+        for x in std_mism[:3]:
+            run.violation({"kind": "correspondence-broken", "correspondence": "L0:C06:restprobe vs Corr/RestCorr.v (join_decoded/canon/dec)",
+                           "call": x["call"], "go": x["go"]}, no_input=True)
+        for x in l1_mism[:3]:
+            run.violation({"kind": "correspondence-broken", "correspondence": "L1:C06:verifprobe vs Model/Directive.v",
+                           "call": x["call"], "go": x["go"],
+                           "how": "printf '%s\\t%s\\n' | verifprobe   (go build -tags verif ./cmd/verifprobe)" % (x["call"][0], lib.go_quote(x["call"][1][0]))},
+                          no_input=True)
 
     good = []
     for pkg, r in zip(pkgs, shoot_res):
@@ -444,6 +499,7 @@ def main(run):
                            "sources": rg.render_go(p, mod.name)})
         if not bad:
             raise lib.CheckBroken("go build of the C06 driver failed: " + err[-3000:])
+        report_l01()
         return run.finish({"evaluations": 0, "distinct_nontrivial": 0, "rule": "build failed", "samples": [],
                            "traces_validated_against_impl": 0, "programs": len(pkgs)})
     wobs = obs[len(cases):]
@@ -452,8 +508,25 @@ def main(run):
 
     outcome = run.replay_findings(kf.handlers(run, shoot, mod, wit, wit_state, wcases, wobs))
 
-    mism = eval_cases(run, "c06", cases, obs)
     byid = {c["id"]: (c, o) for c, o in zip(cases, obs)}
+    defect_cases = [(c, o) for c, o in zip(cases, obs) if c.get("model_only")]
+    main_cases = [(c, o) for c, o in zip(cases, obs) if not c.get("model_only")]
+    cases = [c for c, _ in main_cases]
+    obs = [o for _, o in main_cases]
+    mism = eval_cases(run, "c06", cases, obs)
+    # the input classes of open findings, while the finding is present: implementation vs faithful model
+    live = [(c, o) for c, o in defect_cases if outcome.get(c["model_only"]) == "buggy"]
+    dmism = eval_cases(run, "c06k", [c for c, _ in live], [o for _, o in live], fn="mismatches_model_only") if live else []
+    for cid, v, term in sorted(dmism)[:3]:
+        c, o = byid[cid]
+        run.violation({"kind": "input-class-of-known-finding-behaves-differently", "finding": c["model_only"],
+                       "what": "on an input of the class of an open finding the implementation does not do what the faithful "
+                               "model (which reproduces the recorded defect) predicts: not the known finding",
+                       "correspondence": "L2:C06:generated client vs Model/Rest.v (cook_methods, exec)",
+                       "case": case_summary(c, o), "coq_case": term,
+                       "replay_input": {"pkg": c["pkg"], "iface": c["iface"]["name"], "method": c["method"]["name"],
+                                        "base": c["base"], "args": c["args"], "model_only": True},
+                       "sources": rg.render_go(c["pkg"], mod.name)})
     outside = [x for x in mism if x[1] == 3]
     if outside:
         c, o = byid[outside[0][0]]
@@ -467,10 +540,13 @@ def main(run):
                        "theorem": "C06_request_is_the_declared_one (C06_path / C06_query / C06_body / C06_headers / C06_context)",
                        "correspondence": "L2:C06:generated client vs Model/Rest.v (cook_methods, exec) and Model/RestSpec.v (spec_request)",
                        "case": case_summary(c, o), "coq_case": term,
+                       "replay_input": {"pkg": c["pkg"], "iface": c["iface"]["name"], "method": c["method"]["name"],
+                                        "base": c["base"], "args": c["args"]},
                        "cmd": "shoot rest -type=%s ; go build ; call %s.%s against a recording server"
                               % (",".join(i["name"] for i in c["pkg"]["ifaces"]), c["iface"]["name"], c["method"]["name"]),
                        "sources": srcs, "generated": gen}, no_input=(v != 2))
-    if not proof_ok and not mism:
+    report_l01()
+    if not proof_ok and not mism and not l1_mism and not std_mism:
         run.proof_failure_violation()
 
     feats = feature_counters(cases, obs)
@@ -487,7 +563,7 @@ def main(run):
                  "interface), each run through the freshly built `shoot rest`, compiled, and every method called %d times with "
                  "generated arguments (URL-unsafe strings, empty strings, dot segments, int extremes, nil pointers, nil/empty "
                  "maps, map keys that overwrite declared parameters, cancelled contexts) on 2 of %d base-URL paths.  "
-                 "A case is non-trivial when its method has a placeholder, an alias, interface headers or any parameter; "
+                 "A case is non-trivial when its method has a placeholder, an alias, interface headers or a non-context parameter; "
                  "distinct = distinct (directive, parameter list, headers, base, non-context argument values).  "
                  "L1: %d parser calls (well-formed comments of the generated packages, single-edit mutants, random token "
                  "strings).  L0: %d calls of url.JoinPath/CanonicalMIMEHeaderKey/%%v against the instances used for comparing."
@@ -496,6 +572,7 @@ def main(run):
         "traces_validated_against_impl": len(cases),
         "programs": len(good),
         "l2_cases": len(cases), "l1_calls": n_l1, "l0_calls": n_std,
+        "known_defect_class_cases": {"generated": len(defect_cases), "compared_with_faithful_model": len(live)},
         "features": feats,
         "findings_measured": outcome,
         "samples": [case_summary(*byid[i]) for i in ([0, len(cases) // 2, len(cases) - 1] if cases else [])],
@@ -534,10 +611,35 @@ ASSUMPTIONS = [
 
 
 def replay(run, path):
+    """re-run the recorded call: render the recorded package, run the freshly built shoot on it, call the
+    method with the recorded arguments, compare inside Coq"""
     r = json.load(open(path))
-    print("replay of %s: re-run `bin/check C06 quick` with VERIF_SEED=%s (the case is regenerated from the seed); "
-          "the file holds the sources, the generated client, the call and the observation" % (path, r.get("seed")))
-    import os
-    os.environ["VERIF_SEED"] = str(r.get("seed", run.seed))
-    run2 = lib.Run("C06", r.get("tier", "quick"))
-    return main(run2)
+    ri = r.get("replay_input")
+    if not ri:
+        print("nothing to replay (no concrete input in %s): %s" % (path, r.get("kind")))
+        return 0
+    run.prove(PROP_FILE, CORR_FILES)
+    shoot = run.build_shoot()
+    mod = l2.make_module(run, "c06mod")
+    pkg = ri["pkg"]
+    l2.write_files(mod, rg.render_go(pkg, mod.name))
+    res = run_shoot_all(run, shoot, mod, [pkg])[0]
+    if res["rc"] != 0:
+        print("shoot rest fails on the recorded package: rc=%s %s" % (res["rc"], res["err"][-800:]))
+        print("VIOLATION property=C06 replay=%s" % path)
+        return 1
+    ifc = next(i for i in pkg["ifaces"] if i["name"] == ri["iface"])
+    m = next(x for x in ifc["methods"] if x["name"] == ri["method"])
+    args = {k: tuple(v) if isinstance(v, list) else v for k, v in ri["args"].items()}
+    case = {"id": 0, "client": "c0", "base": ri["base"], "pkg": pkg, "iface": ifc, "method": m, "args": args}
+    obs, err = run_driver(run, mod, "driver", [("c0", pkg["name"], ifc["name"], ri["base"])], [case])
+    if obs is None:
+        print("the generated client does not compile:", err[-1500:])
+        print("VIOLATION property=C06 replay=%s" % path)
+        return 1
+    mism = eval_cases(run, "c06replay", [case], obs, fn="mismatches_model_only" if ri.get("model_only") else "mismatches")
+    print("observed:", json.dumps(obs[0]), "verdict:", [(i, v) for i, v, _ in mism])
+    if mism:
+        print("VIOLATION property=C06 replay=%s" % path)
+        return 1
+    return 0
